@@ -90,6 +90,7 @@ func Explore(c *Config) Stats {
 	}
 	for depth := 1; depth <= c.Depth; depth++ {
 		var next [][]int
+		var newCounted int64
 		for _, hist := range frontier {
 			if c.Stop != nil && c.Stop() {
 				st.Stopped = true
@@ -146,6 +147,7 @@ func Explore(c *Config) Stats {
 				seen[k] = struct{}{}
 				if counted {
 					st.States++
+					newCounted++
 				}
 				if len(st.SampleHist) < 3 && depth >= 2 {
 					st.SampleHist = append(st.SampleHist, c.names(h2))
@@ -153,7 +155,7 @@ func Explore(c *Config) Stats {
 				next = append(next, h2)
 			}
 		}
-		st.PerDepth = append(st.PerDepth, int64(len(next)))
+		st.PerDepth = append(st.PerDepth, newCounted) // levels every shard explores are counted by shard 0 only
 		if len(next) > 0 {
 			st.MaxDepth = depth
 		}
